@@ -25,6 +25,10 @@ type World struct {
 	Chains map[int][]int   // chain id -> hids in chain order (simulated handlers only)
 	Full   map[int][]Entry // chain id -> every handler in chain order
 	names  map[int]string
+	// allowSubstitute: handlers may map their own writer as the http.ResponseWriter service. Off
+	// when the set-up contains Recovery or a handler whose dependencies cannot be resolved: both
+	// would then answer into the substitute, out of the oracles' sight.
+	allowSubstitute bool
 	// RegErrors lists registrations flamego rejected (deterministic, reported).
 	RegErrors []string
 }
@@ -92,6 +96,9 @@ func Build(s *Setup, reqs []*Req, o BuildOpts) *World {
 		f.Map(&AppSvc{Name: "svc-app"})
 	}
 	f.AutoHead(s.AutoHead)
+	if s.Wrapper {
+		f.HandlerWrapper(func(h flamego.Handler) flamego.Handler { return h })
+	}
 	for i := 0; i < s.Befores; i++ {
 		f.Before(func(http.ResponseWriter, *http.Request) bool {
 			sched.Yield(SiteBeforeH)
@@ -266,6 +273,14 @@ func Build(s *Setup, reqs []*Req, o BuildOpts) *World {
 		}
 	}
 	walk(s.Nodes, base, nil)
+	w.allowSubstitute = true
+	for _, l := range w.Full {
+		for _, e := range l {
+			if e.Kind == HkRecovery || (e.HID >= 0 && e.Shape == ShMissing) {
+				w.allowSubstitute = false
+			}
+		}
+	}
 	return w
 }
 
